@@ -275,6 +275,41 @@ func runC18(r *ev.Run) {
 		} else if n := normRef(x); math.Abs(n-1) > ct {
 			fail("cos.preprocess-inplace-not-unit", fmt.Sprintf("|PreprocessInPlace(a)|=%g", n))
 		}
+		// the caller reuses one buffer: Preprocess(buf), change buf in place, Preprocess(buf) again — the second result
+		// is the normalisation of what the buffer holds NOW (anything remembered about the slice is stale)
+		{
+			buf := cloneF32(a)
+			if p1, err := cos.Preprocess(buf); err == nil {
+				f := float32([]float64{8, 0.125, 1000, 0.001, 3}[rng.IntN(5)])
+				ok := true
+				for j := range buf {
+					buf[j] *= f
+					if math.IsInf(float64(buf[j]), 0) {
+						ok = false
+					}
+				}
+				if rng.IntN(3) == 0 {
+					ok = ok && cos.PreprocessInPlace(buf) == nil
+				}
+				if n0 := normRef(buf); ok && n0 > 1e-30 && n0 < 1e30 {
+					p2, err := cos.Preprocess(buf)
+					if err != nil {
+						fail("cos.preprocess-rejects-nonzero", "Preprocess failed on a reused, rescaled buffer")
+					} else {
+						if n := normRef(p2); math.Abs(n-1) > ct {
+							fail("cos.preprocess-not-unit", fmt.Sprintf("|Preprocess(buf)|=%.9g after buf was rescaled in place (first call on the same buffer gave a unit vector)", n))
+						}
+						for j := range p2 {
+							if math.Abs(float64(p2[j])-float64(p1[j])) > 4*ct {
+								fail("cos.scale-variant", fmt.Sprintf("Preprocess of a reused buffer rescaled in place by %g: component %d is %g, before %g", f, j, p2[j], p1[j]))
+								break
+							}
+						}
+					}
+					r.Count("probes:reused-buffer", 1)
+				}
+			}
+		}
 		// a raw vector that is ALMOST unit length is still normalised (a "close enough, skip it" shortcut would leave
 		// stored vectors and queries on slightly different scales)
 		if na := normRef(a); na > 1e-30 && na < 1e30 {
